@@ -409,4 +409,637 @@ example :
     simp only [List.mem_cons, List.mem_nil_iff, or_false] at he
     rcases he with rfl | rfl | rfl <;> rfl)
 
+/-! # Round 7 additions
+
+## (a) surface indices counted from the image (`surfaces[i]` with a negative Python `int`) -/
+section pyindex
+
+/-- `surfaces[i]` never reads outside the list -/
+theorem pyIndex_lt (n : Nat) (i : Int) (k : Nat) (h : pyIndex n i = some k) : k < n := by
+  unfold pyIndex at h
+  split at h
+  · split at h
+    · cases h; omega
+    · cases h
+  · split at h
+    · cases h; omega
+    · cases h
+
+/-- `IndexError` exactly outside `-n ≤ i < n` -/
+theorem pyIndex_none_iff (n : Nat) (i : Int) : pyIndex n i = none ↔ (i < -(n : Int) ∨ (n : Int) ≤ i) := by
+  unfold pyIndex
+  split
+  · split
+    · simp; omega
+    · simp; omega
+  · split
+    · simp; omega
+    · simp; omega
+
+/-- on the indices of the index-resolved model (`PickRec.src : Nat` …) `pyIndex` is `l[k]?` -/
+theorem pyIndex_nat (n k : Nat) : pyIndex n (k : Int) = if k < n then some k else none := by
+  unfold pyIndex
+  rw [if_pos (by omega)]
+  by_cases h : k < n
+  · rw [if_pos (by omega), if_pos h]; simp
+  · rw [if_neg (by omega), if_neg h]
+
+theorem pyIndex_getElem? {α : Type} (l : List α) (k : Nat) :
+    (pyIndex l.length (k : Int)).bind (fun j => l[j]?) = l[k]? := by
+  rw [pyIndex_nat]
+  by_cases h : k < l.length
+  · rw [if_pos h]; rfl
+  · rw [if_neg h]; simp at h; simp [h]
+
+/-- `i` and `i + n` address the same surface for `-n ≤ i < 0` -/
+theorem pyIndex_add_len (n : Nat) (i : Int) (h1 : -(n : Int) ≤ i) (h2 : i < 0) :
+    pyIndex n i = pyIndex n (i + n) := by
+  unfold pyIndex
+  rw [if_neg (by omega), if_pos h1, if_pos (by omega), if_pos (by omega)]
+
+example : pyIndex 4 (-1) = some 3 ∧ pyIndex 4 (-4) = some 0 ∧ pyIndex 4 (-5) = none ∧ pyIndex 4 4 = none := by
+  decide
+
+/-- the correct normalisation `i ↦ n + i` (for `i < 0`) keeps the surface **only** inside the range … -/
+theorem pyIndex_normIdx (n : Nat) (i : Int) (h1 : -(n : Int) ≤ i) : pyIndex n (normIdx n i) = pyIndex n i := by
+  unfold normIdx
+  by_cases h2 : i < 0
+  · rw [if_pos h2, pyIndex_add_len n i h1 h2, Int.add_comm]
+  · rw [if_neg h2]
+
+/-- … outside it turns an `IndexError` into a valid index: the statement "a normalised stored index resolves
+alike for every `n` and `i`" is FALSE; the verbatim stored form (`pickup_index_round_trip`) is the only one
+that is right for all `i`.  Witness `n = 2`, `i = -3`. -/
+theorem pyIndex_normIdx_not_all : ¬ ∀ (n : Nat) (i : Int), pyIndex n (normIdx n i) = pyIndex n i := by
+  intro h
+  have := h 2 (-3)
+  revert this
+  decide
+
+/-- seeded slip `i ↦ (n - 1) + i`: for EVERY lens of at least two surfaces and EVERY index counted from the
+image the stored index addresses a different surface (both resolve; no `IndexError` gives it away) -/
+theorem pyIndex_normIdxSlip_ne (n : Nat) (i : Int) (hn : 2 ≤ n) (h1 : -(n : Int) ≤ i) (h2 : i < 0) :
+    ∃ a b, pyIndex n (normIdxSlip n i) = some a ∧ pyIndex n i = some b ∧ a ≠ b := by
+  unfold normIdxSlip
+  rw [if_pos h2]
+  by_cases h3 : i = -(n : Int)
+  · subst h3
+    refine ⟨n - 1, 0, ?_, ?_, by omega⟩
+    · unfold pyIndex
+      rw [if_neg (by omega), if_pos (by omega)]
+      congr 1; omega
+    · unfold pyIndex
+      rw [if_neg (by omega), if_pos (by omega)]
+      congr 1; omega
+  · refine ⟨((n : Int) - 1 + i).toNat, (i + (n : Int)).toNat, ?_, ?_, by omega⟩
+    · unfold pyIndex
+      rw [if_pos (by omega), if_pos (by omega)]
+    · unfold pyIndex
+      rw [if_neg (by omega), if_pos h1]
+
+example : (2 : Nat) ≤ 4 ∧ -((4 : Nat) : Int) ≤ -1 ∧ (-1 : Int) < 0 := by decide
+
+/-- `Pickup(optic, **pickup.to_dict())` is the pickup as registered, negative indices included -/
+theorem pickZFrom_pickZToDict (p : PickRecZ ν) : pickZFrom (pickZToDict p) = .ok p := by
+  obtain ⟨s, a, t, sc, off⟩ := p
+  cases a <;> simp [pickZFrom, pickZToDict, JV.lookup, JV.asInt, JV.asStr, JV.asNum, PickAttr.name, PickAttr.parse]
+
+/-- `BaseSolve.from_dict(solve.to_dict())` is the solve as registered, negative index included -/
+theorem solveZFrom_solveZToDict (s : SolveRecZ ν) : solveZFrom (solveZToDict s) = .ok s := by
+  obtain ⟨i, h⟩ := s
+  simp [solveZFrom, solveZToDict, JV.lookup, JV.asInt, JV.asStr, JV.asNum]
+
+/-- the stored form (index written verbatim) addresses the same surfaces after the round trip, for every
+number of surfaces and every index — also the ones that raise -/
+theorem pickup_index_round_trip (n : Nat) (p : PickRecZ ν) :
+    (pickZFrom (pickZToDict p)).map (PickRecZ.resolve n) = .ok (p.resolve n) := by
+  rw [pickZFrom_pickZToDict]; rfl
+
+theorem solve_index_round_trip (n : Nat) (s : SolveRecZ ν) :
+    (solveZFrom (solveZToDict s)).map (SolveRecZ.resolve n) = .ok (s.resolve n) := by
+  rw [solveZFrom_solveZToDict]; rfl
+
+/-- … hence the reloaded pickup does the same thing to every surface list at the next `apply` -/
+theorem pickup_round_trip_applies_alike (arrays : Bool) (ss : List (SurfRec ν)) (p q : PickRecZ ν)
+    (h : pickZFrom (pickZToDict p) = .ok q) : applyPickupZ arrays ss q = applyPickupZ arrays ss p := by
+  rw [pickZFrom_pickZToDict] at h
+  cases h; rfl
+
+/-- the model with natural indices (`PickRec`, used by `fromDict_toDict`) is the non-negative part of this one -/
+theorem applyPickupZ_nat (arrays : Bool) (ss : List (SurfRec ν)) (q : PickRec ν) (hs : q.src < ss.length)
+    (ht : q.tgt < ss.length) :
+    applyPickupZ arrays ss ⟨(q.src : Int), q.attr, (q.tgt : Int), q.scale, q.offset⟩ = applyPickup arrays ss q := by
+  unfold applyPickupZ PickRecZ.resolve
+  simp only [pyIndex_nat, if_pos hs, if_pos ht]
+
+example : (1 : Nat) < (demoLens.surfaces).length ∧ (2 : Nat) < (demoLens.surfaces).length := by decide
+
+/-- a radius pickup registered with source `-1` reads the image-side surface: same as the natural index `n - 1` -/
+theorem applyPickupZ_last (arrays : Bool) (ss : List (SurfRec ν)) (a : PickAttr) (t : Nat) (sc off : ν)
+    (hne : ss ≠ []) (ht : t < ss.length) :
+    applyPickupZ arrays ss ⟨-1, a, (t : Int), sc, off⟩ = applyPickup arrays ss ⟨ss.length - 1, a, t, sc, off⟩ := by
+  have hl : 0 < ss.length := List.length_pos_iff.mpr hne
+  have h1 : pyIndex ss.length (-1) = some (ss.length - 1) := by
+    unfold pyIndex
+    rw [if_neg (by omega), if_pos (by omega)]
+    congr 1; omega
+  unfold applyPickupZ PickRecZ.resolve
+  simp only [h1, pyIndex_nat, if_pos ht]
+
+/-- the slip in the stored form: the reloaded pickup reads a different source surface, in every lens with at
+least two surfaces, for every source counted from the image -/
+theorem pickup_slip_resolves_elsewhere (n : Nat) (p : PickRecZ ν) (hn : 2 ≤ n) (h1 : -(n : Int) ≤ p.src)
+    (h2 : p.src < 0) :
+    ∃ q a b, pickZFrom (pickZToDict_slip n p) = .ok q ∧ pyIndex n q.src = some a ∧ pyIndex n p.src = some b ∧
+      a ≠ b := by
+  obtain ⟨a, b, ha, hb, hab⟩ := pyIndex_normIdxSlip_ne n p.src hn h1 h2
+  exact ⟨_, a, b, pickZFrom_pickZToDict _, ha, hb, hab⟩
+
+/-- `surfaces[i:]` (the surfaces a solve shifts) starts at the surface `surfaces[i]` names -/
+theorem pySliceStart_of_pyIndex (n : Nat) (i : Int) (k : Nat) (h : pyIndex n i = some k) : pySliceStart n i = k := by
+  unfold pyIndex at h
+  unfold pySliceStart
+  split at h
+  · split at h
+    · rename_i h1 h2; rw [if_pos h1, if_pos h2]; cases h; rfl
+    · cases h
+  · split at h
+    · rename_i h1 h2; rw [if_neg h1, if_pos h2]; cases h; rfl
+    · cases h
+
+theorem applySolve_beyond (arrays : Bool) (ss : List (SurfRec ν)) (idx : Nat) (o : ν) (h : ss.length ≤ idx) :
+    applySolve arrays ss idx o = ss := by
+  unfold applySolve
+  apply List.ext_getElem?
+  intro i
+  simp only [List.getElem?_mapIdx]
+  by_cases hi : i < ss.length
+  · rw [List.getElem?_eq_getElem hi]
+    simp only [Option.map_some]
+    rw [if_neg (by omega)]
+  · rw [List.getElem?_eq_none (by omega)]; rfl
+
+/-- the solve model with natural indices is the non-negative part of the one with Python indices -/
+theorem applySolveZ_nat (arrays : Bool) (ss : List (SurfRec ν)) (k : Nat) (o : ν) :
+    applySolveZ arrays ss (k : Int) o = applySolve arrays ss k o := by
+  unfold applySolveZ pySliceStart
+  rw [if_pos (by omega)]
+  by_cases h : k < ss.length
+  · rw [if_pos (by omega)]; simp
+  · rw [if_neg (by omega), applySolve_beyond arrays ss _ o (Nat.le_refl _), applySolve_beyond arrays ss k o (by omega)]
+
+/-- the slip in a solve's stored index: the reloaded solve shifts a different set of surfaces -/
+theorem solve_slip_shifts_elsewhere (n : Nat) (s : SolveRecZ ν) (hn : 2 ≤ n) (h1 : -(n : Int) ≤ s.idx)
+    (h2 : s.idx < 0) :
+    pySliceStart n (normIdxSlip n s.idx) ≠ pySliceStart n s.idx := by
+  obtain ⟨a, b, ha, hb, hab⟩ := pyIndex_normIdxSlip_ne n s.idx hn h1 h2
+  rw [pySliceStart_of_pyIndex _ _ _ ha, pySliceStart_of_pyIndex _ _ _ hb]
+  exact hab
+
+end pyindex
+
+/-! ## (b) which object owns the object-space-telecentric flag -/
+
+/-- Whatever the pickups do to the surfaces on reload (no fixed-point hypothesis, no `PlanesClean`): every
+other part of the reloaded lens — the Optic-level flag, the FieldGroup's flag, the aperture with its own flag,
+fields, field type, wavelengths, polarization, pickups, solves — is the original's. -/
+theorem reload_keeps_all_but_surfaces (env : Env ν) (p q : LensRec ν) (h : Wf env p) (a : SysAp ν)
+    (hap : p.aperture = some a) (hi : ∀ s ∈ p.surfaces, s.isImage = false)
+    (hq : fromDict_code env (toDict_code p) = .ok q) :
+    q.objTelecentric = p.objTelecentric ∧ q.fgTelecentric = p.fgTelecentric ∧ q.aperture = p.aperture ∧
+    q.fields = p.fields ∧ q.fieldType = p.fieldType ∧ q.waves = p.waves ∧ q.polarization = p.polarization ∧
+    q.pickups = p.pickups ∧ q.solves = p.solves := by
+  rw [fromDict_toDict_code_general env p h a hap hi] at hq
+  cases hr : applyPickups true (reloadedSurfaces p) p.pickups with
+  | error m => rw [hr] at hq; simp at hq
+  | ok ss =>
+    rw [hr] at hq
+    simp only [map_ok', Except.ok.injEq] at hq
+    subst hq
+    simp
+
+/-- the reloaded lens has the same Optic-level flag -/
+theorem reload_keeps_optic_flag (env : Env ν) (p q : LensRec ν) (h : Wf env p) (a : SysAp ν)
+    (hap : p.aperture = some a) (hi : ∀ s ∈ p.surfaces, s.isImage = false)
+    (hq : fromDict_code env (toDict_code p) = .ok q) : q.objTelecentric = p.objTelecentric :=
+  (reload_keeps_all_but_surfaces env p q h a hap hi hq).1
+
+/-- the hypotheses are satisfiable (demo singlet) -/
+example : demoLens.aperture = some ⟨.EPD, 10, false⟩ ∧
+    fromDict_code demoEnv (toDict_code demoLens) = .ok demoLens := ⟨rfl, demo_round_trip.1⟩
+example : fromDict_spec demoEnv (toDict_spec demoLens) = .ok demoLens :=
+  fromDict_toDict_spec demoEnv demoLens demo_wf demo_clean
+
+/-- specification round trip: the three copies come back each in its own place -/
+theorem reload_keeps_flags_spec (env : Env ν) (p q : LensRec ν) (h : Wf env p)
+    (hq : fromDict_spec env (toDict_spec p) = .ok q) :
+    q.objTelecentric = p.objTelecentric ∧ q.fgTelecentric = p.fgTelecentric ∧ q.aperture = p.aperture := by
+  rw [Serial.fromDict_toDict_spec_general env p h] at hq
+  cases hq
+  simp
+
+/-- a `to_dict` that writes the FieldGroup's copy: the reloaded Optic-level flag is the FieldGroup's -/
+theorem fgFlag_slip_reloads_fg_copy (env : Env ν) (p q : LensRec ν) (h : Wf env p) (a : SysAp ν)
+    (hap : p.aperture = some a) (hi : ∀ s ∈ p.surfaces, s.isImage = false)
+    (hq : fromDict_code env (toDict_fgFlag p) = .ok q) : q.objTelecentric = p.fgTelecentric := by
+  have h' : Wf env { p with objTelecentric := p.fgTelecentric } := ⟨h.surfaces, h.waves, h.aperture⟩
+  exact reload_keeps_optic_flag env _ q h' a hap hi hq
+
+/-- … so the flag is lost exactly when the two copies differ (the harness sets only the Optic-level one) -/
+theorem fgFlag_slip_lost_iff (env : Env ν) (p q : LensRec ν) (h : Wf env p) (a : SysAp ν)
+    (hap : p.aperture = some a) (hi : ∀ s ∈ p.surfaces, s.isImage = false)
+    (hq : fromDict_code env (toDict_fgFlag p) = .ok q) :
+    q.objTelecentric ≠ p.objTelecentric ↔ p.fgTelecentric ≠ p.objTelecentric := by
+  rw [fgFlag_slip_reloads_fg_copy env p q h a hap hi hq]
+
+/-- the same for a `to_dict` that writes the aperture's copy -/
+theorem apFlag_slip_reloads_ap_copy (env : Env ν) (p q : LensRec ν) (h : Wf env p) (a : SysAp ν)
+    (hap : p.aperture = some a) (hi : ∀ s ∈ p.surfaces, s.isImage = false)
+    (hq : fromDict_code env (toDict_apFlag p) = .ok q) : q.objTelecentric = a.telecentric := by
+  have h' : Wf env { p with objTelecentric := a.telecentric } := ⟨h.surfaces, h.waves, h.aperture⟩
+  have e : toDict_apFlag p = toDict_code { p with objTelecentric := a.telecentric } := by
+    unfold toDict_apFlag; rw [hap]
+  rw [e] at hq
+  exact reload_keeps_optic_flag env _ q h' a hap hi hq
+
+/-- the lens of the witnesses: the demo singlet with `optic.obj_space_telecentric = True` set directly (as the
+harness does), FieldGroup and aperture copies untouched -/
+def teleLens : LensRec Int := { demoLens with objTelecentric := true }
+
+theorem tele_wf : Wf demoEnv teleLens := ⟨demo_wf.surfaces, demo_wf.waves, demo_wf.aperture⟩
+
+/-- the code keeps the flag of the witness lens … -/
+theorem tele_round_trip : fromDict_code demoEnv (toDict_code teleLens) = .ok teleLens :=
+  fromDict_toDict demoEnv teleLens tele_wf _ rfl demo_no_image demo_clean demo_pickups_fixed
+
+/-- … writing the FieldGroup's copy, or the aperture's, loses it: the lens reloads without error and is no
+longer telecentric in object space -/
+theorem fgFlag_slip_loses_flag :
+    ∃ q, fromDict_code demoEnv (toDict_fgFlag teleLens) = .ok q ∧ q.objTelecentric = false ∧
+      teleLens.objTelecentric = true ∧ q ≠ teleLens := by
+  have e : fromDict_code demoEnv (toDict_fgFlag teleLens) = .ok demoLens :=
+    fromDict_toDict demoEnv demoLens demo_wf _ rfl demo_no_image demo_clean demo_pickups_fixed
+  refine ⟨demoLens, e, rfl, rfl, ?_⟩
+  intro c
+  have := congrArg LensRec.objTelecentric c
+  simp [teleLens, demoLens] at this
+
+theorem apFlag_slip_loses_flag :
+    ∃ q, fromDict_code demoEnv (toDict_apFlag teleLens) = .ok q ∧ q.objTelecentric = false ∧
+      teleLens.objTelecentric = true := by
+  have e : fromDict_code demoEnv (toDict_apFlag teleLens) = .ok demoLens :=
+    fromDict_toDict demoEnv demoLens demo_wf _ rfl demo_no_image demo_clean demo_pickups_fixed
+  exact ⟨demoLens, e, rfl, rfl⟩
+
+/-! ## (c) later use of a lens reloaded through the *specification* round trip -/
+
+/-- every observation of the specification-reloaded lens is the original's -/
+theorem reload_equal_prescription_spec {β : Type} (observe : LensRec ν → β) (env : Env ν) (p q : LensRec ν)
+    (h : Wf env p) (hc : PlanesClean p) (hq : fromDict_spec env (toDict_spec p) = .ok q) :
+    observe q = observe p := by
+  rw [fromDict_toDict_spec env p h hc] at hq
+  cases hq; rfl
+
+/-- … also after any later edit history, in either representation of the written-back thicknesses; no
+hypothesis on the pickups (they are not re-applied), on the aperture or on `ImageSurface`s -/
+theorem reload_equal_under_later_edits_spec {β : Type} (observe : LensRec ν → β) (arrays : Bool)
+    (es : List (Edit ν)) (env : Env ν) (p q : LensRec ν) (h : Wf env p) (hc : PlanesClean p)
+    (hq : fromDict_spec env (toDict_spec p) = .ok q) :
+    observe (run arrays q es) = observe (run arrays p es) :=
+  reload_equal_prescription_spec (fun L => observe (run arrays L es)) env p q h hc hq
+
+example : Wf demoEnv demoLens ∧ PlanesClean demoLens := ⟨demo_wf, demo_clean⟩
+
+section follow
+open scoped Num
+
+theorem radius_setRadius (g : GeomRec ν) (v : ν) : (g.setRadius v).radius = v := by cases g <;> rfl
+
+theorem applySolves_no_offsets (arrays : Bool) (ss : List (SurfRec ν)) (sv : List (SolveRec ν)) :
+    applySolves arrays ss sv [] = ss := by cases sv <;> rfl
+
+/-- What `update()` does with a pickup whose source was edited: in a lens with one radius pickup
+(source ≠ target, both in range) `set_radius(v, source)` followed by `update()` leaves the target with radius
+`scale * v + offset` — computed by the model's `step`, i.e. the pickup reads the *edited* source surface and
+writes the target it names. -/
+theorem pickup_follows_edited_source (arrays : Bool) (p : LensRec ν) (pk : PickRec ν) (v : ν)
+    (hp : p.pickups = [pk]) (ha : pk.attr = .radius) (hs : pk.src < p.surfaces.length)
+    (ht : pk.tgt < p.surfaces.length) (hne : pk.src ≠ pk.tgt) :
+    ∃ s, (run arrays p [.setRadius v pk.src, .update []]).surfaces[pk.tgt]? = some s ∧
+      s.geom.radius = pk.scale * v + pk.offset := by
+  obtain ⟨src, attr, tgt, sc, off⟩ := pk
+  simp only at ha hs ht hne
+  subst ha
+  have hs' : p.surfaces[src]? = some (p.surfaces[src]) := List.getElem?_eq_getElem hs
+  have ht' : p.surfaces[tgt]? = some (p.surfaces[tgt]) := List.getElem?_eq_getElem ht
+  refine ⟨(p.surfaces[tgt]).setGeom ((p.surfaces[tgt]).geom.setRadius (sc * v + off)), ?_, ?_⟩
+  · simp only [run, List.foldl_cons, List.foldl_nil, step, setRadiusAt, if_pos hs, orKeep, hp, applyPickups,
+      applyPickup, modifyAt, List.getElem?_mapIdx, hs', Option.map_some, if_true, List.length_mapIdx, if_pos ht,
+      applySolves_no_offsets, geom_setGeom, radius_setRadius, ht', if_neg (Ne.symm hne)]
+  · simp only [geom_setGeom, radius_setRadius]
+
+/-- the same pickup on the reloaded lens (specification round trip): a pickup keeps addressing the surfaces it
+addressed before the round trip, which only shows at the `update()` after its source is edited.
+*Partial*: one radius pickup; for arbitrary pickup lists and histories the statement is the congruence
+`reload_equal_under_later_edits_spec`. -/
+theorem reload_pickup_follows_edited_source_partial (arrays : Bool) (env : Env ν) (p q : LensRec ν)
+    (pk : PickRec ν) (v : ν) (h : Wf env p) (hc : PlanesClean p)
+    (hq : fromDict_spec env (toDict_spec p) = .ok q)
+    (hp : p.pickups = [pk]) (ha : pk.attr = .radius) (hs : pk.src < p.surfaces.length)
+    (ht : pk.tgt < p.surfaces.length) (hne : pk.src ≠ pk.tgt) :
+    ∃ s, (run arrays q [.setRadius v pk.src, .update []]).surfaces[pk.tgt]? = some s ∧
+      s.geom.radius = pk.scale * v + pk.offset := by
+  rw [fromDict_toDict_spec env p h hc] at hq
+  cases hq
+  exact pickup_follows_edited_source arrays p pk v hp ha hs ht hne
+
+/-- the same for the round trip of the tree on its domain (the lens is a fixed point of its pickups) -/
+theorem reload_code_pickup_follows_edited_source_partial (arrays : Bool) (env : Env ν) (p q : LensRec ν)
+    (pk : PickRec ν) (v : ν) (h : Wf env p) (a : SysAp ν) (hap : p.aperture = some a)
+    (hi : ∀ s ∈ p.surfaces, s.isImage = false) (hc : PlanesClean p)
+    (hpk : applyPickups true p.surfaces p.pickups = .ok p.surfaces)
+    (hq : fromDict_code env (toDict_code p) = .ok q)
+    (hp : p.pickups = [pk]) (ha : pk.attr = .radius) (hs : pk.src < p.surfaces.length)
+    (ht : pk.tgt < p.surfaces.length) (hne : pk.src ≠ pk.tgt) :
+    ∃ s, (run arrays q [.setRadius v pk.src, .update []]).surfaces[pk.tgt]? = some s ∧
+      s.geom.radius = pk.scale * v + pk.offset := by
+  rw [fromDict_toDict env p h a hap hi hc hpk] at hq
+  cases hq
+  exact pickup_follows_edited_source arrays p pk v hp ha hs ht hne
+
+/-- non-vacuity: the demo singlet without its solve has exactly one radius pickup (1 → 2) -/
+example : ∃ s, (run true { demoLens with solves := [] } [.setRadius 40 1, .update []]).surfaces[2]? = some s ∧
+    s.geom.radius = -40 := by
+  have := pickup_follows_edited_source true { demoLens with solves := [] } ⟨1, .radius, 2, -1, 0⟩ (40 : Int)
+    rfl rfl (by decide) (by decide) (by decide)
+  simpa using this
+
+theorem setGeom_setGeom (s : SurfRec ν) (g1 g2 : GeomRec ν) : (s.setGeom g1).setGeom g2 = s.setGeom g2 := by
+  cases s <;> rfl
+theorem setRadius_setRadius (g : GeomRec ν) (a b : ν) : (g.setRadius a).setRadius b = g.setRadius b := by
+  cases g <;> rfl
+
+/-- a radius pickup whose target is not its source is idempotent: applying it again changes nothing -/
+theorem applyPickup_radius_idem (arrays arrays' : Bool) (ss ss1 : List (SurfRec ν)) (pk : PickRec ν)
+    (ha : pk.attr = .radius) (hne : pk.src ≠ pk.tgt) (h : applyPickup arrays ss pk = .ok ss1) :
+    applyPickup arrays' ss1 pk = .ok ss1 := by
+  obtain ⟨src, attr, tgt, sc, off⟩ := pk
+  simp only at ha hne
+  subst ha
+  unfold applyPickup at h
+  cases hs : ss[src]? with
+  | none => simp [hs] at h
+  | some s =>
+    simp only [hs, setRadiusAt] at h
+    split at h
+    · rename_i ht
+      cases h
+      simp only [applyPickup, modifyAt, List.getElem?_mapIdx, hs, Option.map_some, if_neg hne, setRadiusAt,
+        List.length_mapIdx, if_pos ht]
+      congr 1
+      apply List.ext_getElem?
+      intro i
+      simp only [List.getElem?_mapIdx]
+      cases ss[i]? with
+      | none => rfl
+      | some t =>
+        by_cases hi : i = tgt
+        · simp [hi, setGeom_setGeom, setRadius_setRadius, geom_setGeom]
+        · simp [hi]
+    · cases h
+
+theorem applyPickup_radius_arrays (a a' : Bool) (ss : List (SurfRec ν)) (pk : PickRec ν) (ha : pk.attr = .radius) :
+    applyPickup a ss pk = applyPickup a' ss pk := by
+  unfold applyPickup
+  rw [ha]
+
+/-- Histories that begin with `update()`, the tree as it stands, WITHOUT the fixed-point hypothesis of
+`fromDict_toDict`: in a lens with one radius pickup whose target is not its source (the target may have been
+edited after the pickup was registered, so that the reload does change it) the additional application of the
+pickup by `PickupManager.from_dict` is invisible after the next `update()` — from there on the reloaded lens and
+the original are the same record under every further history.  *Partial*: one radius pickup; the restriction
+`src ≠ tgt` cannot be dropped (`reload_then_update_self_pickup_differs`). -/
+theorem reload_then_update_code_partial (arrays : Bool) (env : Env ν) (p q : LensRec ν) (pk : PickRec ν)
+    (h : Wf env p) (a : SysAp ν) (hap : p.aperture = some a) (hi : ∀ s ∈ p.surfaces, s.isImage = false)
+    (hc : PlanesClean p) (hp : p.pickups = [pk]) (ha : pk.attr = .radius) (hne : pk.src ≠ pk.tgt)
+    (hq : fromDict_code env (toDict_code p) = .ok q) (os : List ν) (es : List (Edit ν)) :
+    run arrays q (.update os :: es) = run arrays p (.update os :: es) := by
+  rw [fromDict_toDict_code_general env p h a hap hi, reloadedSurfaces_clean p hc, hp] at hq
+  cases hr : applyPickup true p.surfaces pk with
+  | error m => simp [applyPickups, hr] at hq
+  | ok ss1 =>
+    simp only [applyPickups, hr, map_ok', Except.ok.injEq] at hq
+    subst hq
+    have h1 : applyPickup arrays p.surfaces pk = .ok ss1 := by
+      rw [applyPickup_radius_arrays arrays true _ pk ha]; exact hr
+    have h2 : applyPickup arrays ss1 pk = .ok ss1 := applyPickup_radius_idem true arrays _ _ pk ha hne hr
+    simp only [run, List.foldl_cons]
+    congr 1
+    simp only [step, hp, applyPickups, h1, h2, orKeep]
+
+
+/-- the radii of a result (for witnesses) -/
+def radiiOf : R (List (SurfRec Int)) → List Int
+  | .ok ss => ss.map (fun s => s.geom.radius)
+  | .error _ => []
+
+/-- non-vacuity of `reload_then_update_code_partial`: the demo singlet after `set_radius(-60, 2)` — no longer a
+fixed point of its pickup 1 → 2, so the reload alone changes it -/
+example : (⟨1, .radius, 2, -1, 0⟩ : PickRec Int).attr = .radius ∧ (1 : Nat) ≠ 2 ∧
+    applyPickups true (run true demoLens [.setRadius (-60) 2]).surfaces demoLens.pickups ≠
+      .ok (run true demoLens [.setRadius (-60) 2]).surfaces := by
+  refine ⟨rfl, by decide, ?_⟩
+  intro c
+  have := congrArg radiiOf c
+  revert this
+  decide
+
+end follow
+
+/-- the witness lens of `pickups_reapplied_change_lens` -/
+def selfPickLens : LensRec Int :=
+  ⟨some ⟨.EPD, 1, false⟩,
+   [.object (.plane (.root ⟨0, 0, .scalar 0, 0, 0, 0⟩) none) (.ideal 1 0),
+    .standard (.standard (.root ⟨0, 0, .scalar 0, 0, 0, 0⟩) 1 0) (.ideal 1 0) (.ideal 1 0) true none none none false],
+   [], false, none, false, [], .ignore, [⟨1, .radius, 1, 2, 0⟩], []⟩
+
+/-- a pickup that reads its own target: the reloaded lens differs and `update()` does not bring the two together
+(radius 4 against 2) -/
+theorem reload_then_update_self_pickup_differs :
+    ∃ (env : Env Int) (q : LensRec Int), Wf env selfPickLens ∧ PlanesClean selfPickLens ∧
+      fromDict_code env (toDict_code selfPickLens) = .ok q ∧
+      (run true q [.update []]).surfaces.map (fun s => s.geom.radius) ≠
+      (run true selfPickLens [.update []]).surfaces.map (fun s => s.geom.radius) := by
+  let env : Env Int := ⟨fun _ _ _ _ _ => .error "no catalogue"⟩
+  have hw : Wf env selfPickLens := by
+    refine ⟨?_, Or.inl rfl, ?_⟩
+    · intro t ht
+      simp only [selfPickLens, List.mem_cons, List.mem_nil_iff, or_false] at ht
+      rcases ht with rfl | rfl <;> simp [SurfRec.wf, GeomRec.wf, MatRec.wf, optWf]
+    · intro b hb
+      simp only [selfPickLens, Option.some.injEq] at hb
+      subst hb
+      simp [SysAp.wf]
+  have hi : ∀ t ∈ selfPickLens.surfaces, t.isImage = false := by
+    intro t ht
+    simp only [selfPickLens, List.mem_cons, List.mem_nil_iff, or_false] at ht
+    rcases ht with rfl | rfl <;> rfl
+  have hc : PlanesClean selfPickLens := by
+    intro t ht
+    simp only [selfPickLens, List.mem_cons, List.mem_nil_iff, or_false] at ht
+    rcases ht with rfl | rfl <;> rfl
+  refine ⟨env, { selfPickLens with surfaces :=
+      [.object (.plane (.root ⟨0, 0, .scalar 0, 0, 0, 0⟩) none) (.ideal 1 0),
+       .standard (.standard (.root ⟨0, 0, .scalar 0, 0, 0, 0⟩) 2 0) (.ideal 1 0) (.ideal 1 0) true none none none
+         false] }, hw, hc, ?_, ?_⟩
+  · rw [fromDict_toDict_code_general env selfPickLens hw _ rfl hi]
+    rfl
+  · decide
+
+/-! ## (d) the component laws, one per `to_dict / from_dict` pair -/
+
+/-- `CoordinateSystem` (with its chain of reference systems and a `z` of either representation) -/
+theorem cs_round_trip (c : CsRec ν) : csFrom (csToDict c) = .ok c := csFrom_csToDict c
+
+/-- the five geometry classes; a `Plane` comes back without the attribute `set_conic` left on it -/
+theorem geometry_round_trip (g : GeomRec ν) (h : g.wf = true) : geomFrom (geomToDict g) = .ok g.reloaded :=
+  geomFrom_geomToDict g h
+
+/-- … so every geometry that is not such a `Plane` comes back as it was -/
+theorem geometry_round_trip_exact (g : GeomRec ν) (h : g.wf = true) (hk : ∀ cs k, g ≠ .plane cs (some k)) :
+    geomFrom (geomToDict g) = .ok g := by
+  rw [geomFrom_geomToDict g h]
+  cases g with
+  | plane cs k =>
+    cases k with
+    | none => rfl
+    | some k => exact absurd rfl (hk cs k)
+  | _ => rfl
+
+example : (GeomRec.chebyshev (.root ⟨0, 0, .scalar 0, 0, 0, 0⟩) 50 0 0 100 [[1, 2], [3, 4]] 1 1 : GeomRec Int).wf
+    = true := by decide
+
+/-- the five material classes (a catalogue `Material` repeats the lookup that made it) -/
+theorem material_round_trip (env : Env ν) (m : MatRec ν) (h : m.wf env) : matFrom env (matToDict m) = .ok m :=
+  matFrom_matToDict env m h
+
+example : demoGlass.wf demoEnv := by simp [demoGlass, demoEnv, MatRec.wf]
+
+/-- coatings, in memory (the tree hands the material objects of a Fresnel coating through) -/
+theorem coating_round_trip_code (env : Env ν) (c : CoatRec ν) (h : c.wf env) :
+    coatFrom .code env (coatToDict_code c) = .ok c := coatFrom_code env c h
+
+/-- coatings, specification (materials as dictionaries) -/
+theorem coating_round_trip_spec (env : Env ν) (c : CoatRec ν) (h : c.wf env) :
+    coatFrom .spec env (coatToDict_spec c) = .ok c := coatFrom_spec env c h
+
+example : (CoatRec.fresnel (.ideal 1 0) demoGlass).wf demoEnv := by simp [demoGlass, demoEnv, MatRec.wf, CoatRec.wf]
+
+/-- the dictionary the tree writes for a Fresnel coating cannot be read by the specification reader and
+vice versa (the two forms are not interchangeable): the file written by one variant is rejected by the other -/
+theorem coating_forms_not_interchangeable (env : Env ν) (m1 m2 : MatRec ν) :
+    (∀ c, coatFrom .spec env (coatToDict_code (.fresnel m1 m2)) ≠ .ok c) ∧
+    (∀ c, coatFrom .code env (coatToDict_spec (.fresnel m1 m2)) ≠ .ok c) := by
+  constructor
+  · intro c e
+    simp [coatToDict_code, coatFrom, asObj, J.lookup, req, asStr, matObj, matObjFrom, Mode.spec] at e
+  · intro c e
+    cases m1 <;> simp [coatToDict_spec, coatFrom, asObj, J.lookup, req, asStr, matObjFrom, Mode.code, matToDict] at e
+
+theorem bsdf_round_trip (b : BsdfRec ν) : bsdfFrom (bsdfToDict b) = .ok b := bsdfFrom_bsdfToDict b
+
+theorem physical_aperture_round_trip (a : ApRec ν) : apFrom (apToDict a) = .ok a := apFrom_apToDict a
+
+/-- a field point with its vignetting factors and its (possibly absent) field type -/
+theorem field_round_trip (f : FieldRec ν) : fieldFrom (fieldToDict f) = .ok f := fieldFrom_fieldToDict f
+
+/-- one wavelength with its unit: the stored unit name parses back to the unit, for all five units -/
+theorem wavelength_round_trip (w : WaveRec ν) : waveArgs (waveToDict w) = .ok w := waveArgs_waveToDict w
+
+theorem unit_round_trip (u : WUnit) : WUnit.parse u.name = .ok u := by cases u <;> rfl
+
+/-- the wavelength list through `add_wavelength`: the primary flags survive exactly for the lists that have none
+or one primary wavelength -/
+theorem wavelengths_round_trip (ws : List (WaveRec ν)) (h : WavesWf ws) :
+    wavesFrom (ws.map waveToDict) = .ok ws := wavesFrom_waves ws h
+
+example : WavesWf demoLens.waves := demo_wf.waves
+
+/-- … and not otherwise: two primaries (reachable by setting `is_primary` on the objects) come back as one -/
+theorem wavelengths_two_primaries_lost :
+    ∃ ws : List (WaveRec Int), ∃ ws', wavesFrom (ws.map waveToDict) = .ok ws' ∧ ws' ≠ ws :=
+  ⟨[⟨486, true, .nm⟩, ⟨588, true, .nm⟩], [⟨486, false, .nm⟩, ⟨588, true, .nm⟩], rfl, by intro c; simp at c⟩
+
+/-- the system aperture with its own telecentric flag, for both readers -/
+theorem system_aperture_round_trip (m : Mode) (a : SysAp ν) (h : a.wf) :
+    sysApFrom m (optJ sysApToDict (some a)) = .ok (some a) := sysApFrom_some m a h
+
+example : (⟨.objectNA, 1, true⟩ : SysAp Int).wf := by simp [SysAp.wf]
+
+/-- an aperture that violates the constructor's check (reachable by setting the attribute afterwards) can be
+written but not read back -/
+theorem system_aperture_invalid_not_reloadable (m : Mode) (v : ν) :
+    ∀ r, sysApFrom m (optJ sysApToDict (some ⟨.EPD, v, true⟩)) ≠ .ok r := by
+  intro r e
+  simp [optJ, sysApToDict, sysApFrom, req, J.lookup, getD, asStr, asNum, asBool, ApType.name, ApType.parse] at e
+
+theorem polarization_round_trip_code (p : PolRec ν) : polFrom .code (polToJ_code p) = .ok p := polFrom_code p
+theorem polarization_round_trip_spec (p : PolRec ν) : polFrom .spec (polToJ_spec p) = .ok p := polFrom_spec p
+
+theorem pickup_round_trip (p : PickRec ν) : pickFrom (pickToDict p) = .ok p := pickFrom_pickToDict p
+theorem solve_round_trip (s : SolveRec ν) : solveFrom (solveToDict s) = .ok s := solveFrom_solveToDict s
+
+/-- a whole surface (geometry, two media, stop flag, aperture, coating, scatter model, reflective flag),
+specification reader, `ImageSurface` included -/
+theorem surface_round_trip_spec (env : Env ν) (s : SurfRec ν) (h : s.wf env) :
+    surfFrom .spec env (surfToDictWith coatToDict_spec s) = .ok s.reloaded := surfFrom_spec env s h
+
+/-- the same for the tree, except `ImageSurface` (`image_surface_not_reloadable`) -/
+theorem surface_round_trip_code (env : Env ν) (s : SurfRec ν) (h : s.wf env) (hi : s.isImage = false) :
+    surfFrom .code env (surfToDictWith coatToDict_code s) = .ok s.reloaded := surfFrom_code env s h hi
+
+/-! ### the defaults of the optional keys (`data.get(key, default)`; the harness drops them at random) -/
+
+/-- `CoordinateSystem.from_dict`: every one of the six numbers defaults to 0 -/
+theorem cs_defaults : csFrom (.obj [("reference_cs", .null)] : J ν) =
+    .ok (.root ⟨Num.zero, Num.zero, .scalar Num.zero, Num.zero, Num.zero, Num.zero⟩) := by
+  simp [csFrom, refOf, J.truthy, frameFrom, getD, J.lookup, asNum, asZ]
+
+/-- geometries: `conic = 0`, `tol = 1e-10`, `max_iter = 100`, no coefficients, `norm_x = norm_y = 1` -/
+theorem geometry_defaults (cs : CsRec ν) (r : ν) :
+    geomFrom (.obj [("type", .str "StandardGeometry"), ("cs", csToDict cs), ("radius", .num r)]) =
+      .ok (.standard cs r Num.zero) ∧
+    geomFrom (.obj [("type", .str "EvenAsphere"), ("cs", csToDict cs), ("radius", .num r)]) =
+      .ok (.evenAsphere cs r Num.zero tolDefault maxIterDefault (.list [])) ∧
+    geomFrom (.obj [("type", .str "ChebyshevPolynomialGeometry"), ("cs", csToDict cs), ("radius", .num r)]) =
+      .ok (.chebyshev cs r Num.zero tolDefault maxIterDefault [[]] Num.one Num.one) := by
+  refine ⟨?_, ?_, ?_⟩ <;>
+    simp [geomFrom, asObj, J.lookup, req, getD, csFrom_csToDict, asNum, coefFrom, matrixFrom, mapE]
+
+/-- `IdealMaterial`: `absorp = 0`; `Material`: no reference, robust search, no wavelength limits -/
+theorem material_defaults (env : Env ν) (n : ν) (name : String) :
+    matFrom env (.obj [("type", .str "IdealMaterial"), ("index", .num n)]) = .ok (.ideal n Num.zero) ∧
+    matFrom env (.obj [("type", .str "Material"), ("name", .str name)]) =
+      (env.lookup name none true none none).map (fun fn => .material fn name none true none none) := by
+  constructor
+  · simp [matFrom, asObj, J.lookup, req, getD, asNum]
+  · simp only [matFrom, asObj, J.lookup, req, getD, asStr, asOptStr, asBool, asOptNum, bind_ok, Option.getD,
+      String.reduceEq, ↓reduceIte]
+    cases env.lookup name none true none none <;> rfl
+
+/-- wavelength: primary, micrometres; pickup: scale 1, offset 0; aperture: not telecentric; field: the origin,
+no vignetting -/
+theorem record_defaults (v : ν) (s t : Nat) (a : PickAttr) (ty : ApType) (m : Mode) (ft : Option String) :
+    waveArgs (.obj [("value", .num v)]) = .ok ⟨v, true, .um⟩ ∧
+    pickFrom (.obj [("source_surface_idx", .int s), ("attr_type", .str a.name), ("target_surface_idx", .int t)] : J ν)
+      = .ok ⟨s, a, t, Num.one, Num.zero⟩ ∧
+    sysApFrom m (.obj [("type", .str ty.name), ("value", .num v)]) = .ok (some ⟨ty, v, false⟩) ∧
+    fieldFrom (.obj [("field_type", optStrJ ft)] : J ν) = .ok ⟨ft, Num.zero, Num.zero, Num.zero, Num.zero⟩ := by
+  refine ⟨?_, ?_, ?_, ?_⟩
+  · simp [waveArgs, asObj, J.lookup, req, getD, asNum, asBool, asStr, WUnit.parse]
+  · cases a <;> simp [pickFrom, asObj, J.lookup, req, getD, asNum, asNat, asStr, PickAttr.name, PickAttr.parse]
+  · cases ty <;> simp [sysApFrom, J.lookup, req, getD, asNum, asBool, asStr, ApType.name, ApType.parse]
+  · simp [fieldFrom, asObj, J.lookup, getD, asNum, asOptStr_optStrJ]
+
+
 end C19
